@@ -796,7 +796,7 @@ struct MyKeeper {
     void start() {
         th = std::thread([this] {
             while (!stop.load(std::memory_order_relaxed)) {
-                suspend_gate();   // let the process go quiet while the watchdog decides whether it is stuck
+                suspend_gate(&stop);   // let the process go quiet while the watchdog decides whether it is stuck
                 tbb::task_arena* a = cur.load(std::memory_order_acquire);
                 if (a && enq.load(std::memory_order_relaxed) - ran.load(std::memory_order_relaxed) < 256)
                     for (int i = 0; i < 4; i++) { enq.fetch_add(1, std::memory_order_relaxed); a->enqueue([this] { spin_iters(300); ran.fetch_add(1, std::memory_order_release); }); }
@@ -804,7 +804,7 @@ struct MyKeeper {
             }
         });
     }
-    void finish() { stop.store(true); th.join(); double t0 = now_s(); while (ran.load(std::memory_order_acquire) < enq.load() && now_s() - t0 < 60) sleep_us(200); }
+    void finish() { stop.store(true); gate_wake(); th.join(); double t0 = now_s(); while (ran.load(std::memory_order_acquire) < enq.load() && now_s() - t0 < 60) sleep_us(200); }
 };
 struct Batch { tbb::task_arena* A = nullptr; long size = 0; uint64_t bseed = 0; int active = 1; std::atomic<long> next{0}; const std::vector<int>* ids = nullptr; };
 static void run_batch(Batch& b, int d) {
